@@ -159,18 +159,33 @@ func (w *dynamicWalker) fill(ctx context.Context, pathC chan<- *currentPath) err
 func (r *receiver) run(ctx context.Context) error {
 	g, ctx := errgroup.WithContext(ctx)
 
+	metadataTransfer := r.metadataOnly != nil
+	writerFilter := r.filter
+	if metadataTransfer {
+		if fi, err := os.Lstat(filepath.Join(r.dest, metadataPath)); err == nil && fi.Mode().IsRegular() {
+			// the listing file is this receiver's own bookkeeping: it is
+			// never part of the stream and is written anew at the end. The
+			// one an earlier metadata-only receive left is not a stale
+			// entry to delete (and to report as deleted) either
+			writerFilter = func(p string, st *types.Stat) bool {
+				if p == metadataPath {
+					return false
+				}
+				return r.filter == nil || r.filter(p, st)
+			}
+		}
+	}
 	dw, err := NewDiskWriter(ctx, r.dest, DiskWriterOpt{
 		AsyncDataCb:   r.asyncDataFunc,
 		NotifyCb:      r.notifyHashed,
 		ContentHasher: r.contentHasher,
-		Filter:        r.filter,
+		Filter:        writerFilter,
 	})
 	if err != nil {
 		return err
 	}
 
 	w := newDynamicWalker()
-	metadataTransfer := r.metadataOnly != nil
 	// buffer Stat metadata in framed proto
 	metadataBuffer := &buffer{}
 	// stack of parent paths that can be replayed if metadata filter matches
